@@ -169,6 +169,16 @@ func readThenDispatch(c *Ctx, r *Report, rule string) {
 			if callee := call.Call.StaticCallee(); callee != nil && callee.Pkg == fn.Pkg && len(errResultsOf(call)) > 0 {
 				return reachesCall(callee, 3, map[*ssa.Function]bool{}, isReadInvoke)
 			}
+			// a reader chosen beforehand: a call of a local function value every possible value of which reads
+			if call.Call.StaticCallee() == nil && !call.Call.IsInvoke() && len(errResultsOf(call)) > 0 {
+				targets := closureTargets(call.Call.Value)
+				for _, t := range targets {
+					if !reachesCall(t, 3, map[*ssa.Function]bool{}, isReadInvoke) {
+						return false
+					}
+				}
+				return len(targets) > 0
+			}
 			return false
 		}
 		isDispatchCall := func(ci ssa.CallInstruction) bool {
@@ -472,7 +482,7 @@ func shutdownClosesPacketConn(c *Ctx, r *Report, rule string) {
 			if done {
 				continue
 			}
-			succs := it.b.Succs
+			succs := succsFrom(st.Block(), it.b)
 			if ifi, ok := it.b.Instrs[len(it.b.Instrs)-1].(*ssa.If); ok && len(succs) == 2 {
 				// where the connection is known to be nil there is nothing to close: follow the non-nil edge only
 				atom, pol := condAtom(ifi.Cond)
@@ -1459,32 +1469,58 @@ func escapeSkipExec(c *Ctx, r *Report, rule string) {
 		return
 	}
 	r.fn("escapedNameLen")
+	// the count: the loop variable the result is made of — returned as it is (it starts at len(s) and drops), or taken
+	// off len(s) at the end (it starts at 0 and grows)
 	var idx, length *ssa.Phi
 	var head *ssa.BasicBlock
-	for _, b := range fn.Blocks {
-		if !backTarget(fn, b) {
-			continue
+	sign := int64(1)
+	isLen := func(v ssa.Value) bool {
+		call, isCall := v.(*ssa.Call)
+		return isCall && calleeNameSSA(&call.Call) == "builtin.len"
+	}
+	entryEdge := func(phi *ssa.Phi) ssa.Value {
+		for i, e := range phi.Edges {
+			if !phi.Block().Dominates(phi.Block().Preds[i]) {
+				return e
+			}
 		}
-		for _, in := range b.Instrs {
+		return nil
+	}
+	allInstrs(fn, func(in ssa.Instruction) {
+		ret, ok := in.(*ssa.Return)
+		if !ok || len(ret.Results) != 1 {
+			return
+		}
+		switch t := ret.Results[0].(type) {
+		case *ssa.Phi:
+			if backTarget(fn, t.Block()) && isLen(entryEdge(t)) {
+				length, sign = t, 1
+			}
+		case *ssa.BinOp:
+			if phi, isPhi := t.Y.(*ssa.Phi); isPhi && t.Op == token.SUB && isLen(t.X) && backTarget(fn, phi.Block()) {
+				if k, isK := constIntOf(entryEdge(phi)); isK && k == 0 {
+					length, sign = phi, -1
+				}
+			}
+		}
+	})
+	if length != nil {
+		head = length.Block()
+		for _, in := range head.Instrs {
 			phi, ok := in.(*ssa.Phi)
 			if !ok {
 				break
 			}
-			for i, e := range phi.Edges {
-				if b.Dominates(b.Preds[i]) {
-					continue // a back edge
-				}
-				if k, isK := constIntOf(e); isK && k == 0 {
-					idx, head = phi, b
-				}
-				if call, isCall := e.(*ssa.Call); isCall && calleeNameSSA(&call.Call) == "builtin.len" {
-					length = phi
-				}
+			if phi == length {
+				continue
+			}
+			if k, isK := constIntOf(entryEdge(phi)); isK && k == 0 {
+				idx = phi
 			}
 		}
 	}
 	if idx == nil || length == nil || idx.Block() != length.Block() {
-		r.undecided(rule, "escapedNameLen", c.pos(fn.Pos()), "the loop with an index starting at 0 and a length starting at len(s) was not found")
+		r.undecided(rule, "escapedNameLen", c.pos(fn.Pos()), "the loop with an index starting at 0 and a count the result is made of (starting at len(s) and returned, or starting at 0 and taken off len(s)) was not found")
 		return
 	}
 	var slashTests, dddCalls, lens []ssa.Value
@@ -1546,8 +1582,8 @@ func escapeSkipExec(c *Ctx, r *Report, rule string) {
 			r.undecided(rule, "escapedNameLen", c.pos(fn.Pos()), "the index / length after one turn are not decided for %s", cs.what)
 			return
 		}
-		if ni-10 != cs.di || nl-100 != cs.dl {
-			problems = append(problems, fmt.Sprintf("for %s the index moves on by %d and the length changes by %d (want %d and %d): the octets skipped and the octets subtracted do not agree with the escape form", cs.what, ni-10, nl-100, cs.di, cs.dl))
+		if ni-10 != cs.di || sign*(nl-100) != cs.dl {
+			problems = append(problems, fmt.Sprintf("for %s the index moves on by %d and the length changes by %d (want %d and %d): the octets skipped and the octets subtracted do not agree with the escape form", cs.what, ni-10, sign*(nl-100), cs.di, cs.dl))
 		}
 	}
 	r.check(len(problems) == 0, rule, "escapedNameLen", c.pos(fn.Pos()), "(1,0) (4,-3) (2,-1)", "%s", strings.Join(problems, "; "))
@@ -1733,4 +1769,57 @@ func (x *scalarExec) globalTable(g *ssa.Global) (map[int64]int64, bool) {
 	}
 	x.tables[g], x.tableOK[g] = tbl, okAll
 	return tbl, okAll
+}
+
+// closureTargets: the functions a local function value can be — function literals and functions of the package, through
+// merges and through a local variable's stores. nil when some possible value is not such a function.
+func closureTargets(v ssa.Value) []*ssa.Function {
+	var out []*ssa.Function
+	seen := map[ssa.Value]bool{}
+	var visit func(v ssa.Value) bool
+	visit = func(v ssa.Value) bool {
+		if seen[v] {
+			return true
+		}
+		seen[v] = true
+		switch t := v.(type) {
+		case *ssa.Phi:
+			for _, e := range t.Edges {
+				if !visit(e) {
+					return false
+				}
+			}
+			return true
+		case *ssa.MakeClosure:
+			if f, ok := t.Fn.(*ssa.Function); ok {
+				out = append(out, f)
+				return true
+			}
+		case *ssa.Function:
+			out = append(out, t)
+			return true
+		case *ssa.UnOp:
+			if al, ok := t.X.(*ssa.Alloc); ok && t.Op == token.MUL && al.Referrers() != nil {
+				n := 0
+				for _, ref := range *al.Referrers() {
+					switch r := ref.(type) {
+					case *ssa.Store:
+						if r.Addr != ssa.Value(al) || !visit(r.Val) {
+							return false
+						}
+						n++
+					case *ssa.UnOp, *ssa.DebugRef:
+					default:
+						return false
+					}
+				}
+				return n > 0
+			}
+		}
+		return false
+	}
+	if !visit(v) {
+		return nil
+	}
+	return out
 }
